@@ -386,3 +386,38 @@ Proof.
     - destruct (rdt =? tAXFR); [|discriminate]. destruct udp; inversion Hi; auto. }
   destruct Hs as [Hp Hsoa]. apply drive_done_announced in H. rewrite Hp, Hsoa in H. exact H.
 Qed.
+
+(* UDP: the datagram holds the first SOA and a proper, non-empty prefix of the rest of a valid
+   response: "unexpected end of UDP IXFR" *)
+Theorem udp_incomplete_rejected : forall v0 chain z0 w a q,
+  chain_ok v0 chain -> zeq z0 (zone_of v0) -> header_ok tIXFR w ->
+  a <> [] -> q <> [] ->
+  w_records w = soa_rr (last chain v0) :: a ->
+  soa_rr (last chain v0) :: a ++ q = ixfr_stream v0 chain ->
+  forall ws, inbound_xfr z0 tIXFR (Some (v_serial v0)) true (w :: ws) = (Error eUDPEnd z0, 0%nat).
+Proof.
+  intros v0 chain z0 w a q Hok Hz Hw Ha Hq Hr Hcat ws.
+  unfold ixfr_stream in Hcat. cbv zeta in Hcat. inversion Hcat as [Hcat'].
+  destruct (ixfr_records true v0 chain z0 Hok Hz) as (s1 & s2 & Hl & Hd1 & Hf & Hd2 & Hz2).
+  pose proof Hok as (_ & _ & _ & Hser & Hlt).
+  apply app_snoc_split in Hcat'. destruct Hcat' as [[c' [Hmid Hq']]|[_ Hq']]; [|congruence].
+  rewrite Hmid, map_app, loopn_app in Hl.
+  destruct (loopn _ (map single a)) as [sp [e|]] eqn:Hp; [discriminate|].
+  pose proof (loopn_none_not_done _ _ _ Hl Hd1) as Hdp.
+  pose proof (loop_loopn _ _ _ Hp) as Hlp.
+  assert (Hpub : pub sp = z0).
+  { apply loop_pub in Hlp. destruct Hlp as [?|[_ [? _]]]; [assumption|congruence]. }
+  assert (Hudp : is_udp sp = true) by (apply loop_inv in Hlp; destruct Hlp as (_ & H & _); exact H).
+  unfold inbound_xfr. rewrite init_ixfr. cbn [Z.eqb tIXFR Pos.eqb]. rewrite drive_cons.
+  rewrite (first_message_ixfr z0 (v_serial v0) true w (soa_rr (last chain v0)) a Hw Hr) by (split; reflexivity).
+  cbv zeta. change (r_data (soa_rr (last chain v0)) mod two32) with (v_serial (last chain v0)).
+  assert (Hne : (v_serial (last chain v0) =? v_serial v0) = false).
+  { apply Z.eqb_neq. intros E. apply (Hser v0 (or_introl eq_refl)). symmetry. exact E. }
+  rewrite Hne, Hlt.
+  assert (Hnn : (match a with [] => true | _ :: _ => false end) = false) by (destruct a; [congruence|reflexivity]).
+  rewrite Hnn. cbn [andb].
+  change (set_expecting (set_soa (set_txn (ixfr_init z0 (v_serial v0) true) (Some z0))
+            (Some (single (soa_rr (last chain v0))))) true)
+    with (ist true z0 z0 (v_serial v0) (single (soa_rr (last chain v0))) true false).
+  rewrite Hlp, Hudp, Hdp. cbn [andb negb cont]. rewrite Hpub. reflexivity.
+Qed.
